@@ -91,3 +91,27 @@ func (fx *FnCtx) sprintfTerm(format string, args []string) string {
 	fx.sc.declFun(name, "(declare-fun "+name+" ("+sorts+") Str)")
 	return "(" + name + " " + format + " " + strings.Join(args, " ") + ")"
 }
+
+// isIntrinsic: is the call handled by intrinsic() (no contract needed)?
+func (fx *FnCtx) isIntrinsic(call *ast.CallExpr) bool {
+	sel, ok := ast.Unparen(call.Fun).(*ast.SelectorExpr)
+	if !ok {
+		return false
+	}
+	if o, ok := fx.pkg.Info.Uses[sel.Sel].(*types.Func); ok && o.Pkg() != nil && o.Pkg().Path() == "fmt" {
+		switch o.Name() {
+		case "Sprintf", "Errorf", "Printf":
+			return len(call.Args) > 0 && !call.Ellipsis.IsValid()
+		}
+	}
+	if s, ok := fx.pkg.Info.Selections[sel]; ok && s.Kind() == types.MethodVal {
+		rt := s.Recv()
+		if p, ok := derefType(rt); ok {
+			rt = p
+		}
+		if n, ok := types.Unalias(rt).(*types.Named); ok && n.Obj().Pkg() != nil && n.Obj().Pkg().Path() == "bytes" && n.Obj().Name() == "Buffer" {
+			return true
+		}
+	}
+	return false
+}
